@@ -256,8 +256,30 @@ def case_strategy():
 
     @st.composite
     def cases(draw):
-        klass = draw(st.sampled_from(['fo', 'fo', 'repeated', 'poly', 'miller', 'miller', 'heuristic', 'seeded', 'seeded-conflict',
-                                      'eta', 'unrelated']))
+        klass = draw(st.sampled_from(['fo', 'fo', 'repeated', 'poly', 'miller', 'miller', 'miller-mixed', 'miller-mixed', 'heuristic',
+                                      'heuristic-poly', 'seeded', 'seeded-conflict', 'eta', 'unrelated']))
+        if klass == 'heuristic-poly':
+            # ?f ?x1 .. ?xk with a fully polymorphic head against an application with k or more arguments
+            k = draw(st.integers(1, 3))
+            stv = [["stv", n] for n in ('a', 'b', 'c', 'd')]
+            FT = fun(*(stv[:k] + [stv[k]]))
+            pat = ['sv', 'F', FT]
+            for i in range(k):
+                pat = ['app', pat, ['sv', 'x%d' % i, stv[i]] if draw(st.integers(0, 3)) else draw(gen.terms(opts, draw(st.sampled_from(atomsT)), (), 1))]
+            n = draw(st.integers(k, k + 1))
+            Ts = [draw(st.sampled_from(atomsT)) for _ in range(n)]
+            R = draw(st.sampled_from(atomsT))
+            tgt = ['v', 'g', fun(*(Ts + [R]))]
+            m = draw(st.integers(max(1, k - 1), n))          # number of arguments actually applied
+            for Ti in Ts[:m]:
+                tgt = ['app', tgt, draw(gen.terms(opts, Ti, (), 1))]
+            R = fun(*(Ts[m:] + [R])) if m < n else R
+            if draw(st.booleans()):
+                eqR = fun(R, R, BOOL)
+                rhs = draw(gen.terms(opts, R, (), 1))
+                pat = ['app', ['app', ['c', 'equals', fun(stv[k], stv[k], BOOL)], pat], ['sv', 'r', stv[k]]]
+                tgt = ['app', ['app', ['c', 'equals', eqR], tgt], rhs]
+            return {'pat': pat, 't': tgt, 'seed': None, 'klass': klass, 'expect_success': False}
         T = draw(st.sampled_from([BOOL, BOOL, gen.A, fun(gen.A, BOOL)]))
         tysig = {}
         if klass == 'poly' or draw(st.integers(0, 4)) == 0:
@@ -279,11 +301,42 @@ def case_strategy():
             body = ['app', ['app', ['c', 'equals', fun(R, R, BOOL)], Fapp], rhs]
             p0 = ['app', ['c', 'all', fun(fun(A1, BOOL), BOOL)],
                   ['abs', 'u', A1, ['app', ['c', 'all', fun(fun(A2, BOOL), BOOL)], ['abs', 'v', A2, body]]]]
+        elif klass == 'miller-mixed':
+            # ?F applied to a mixture of bound variables and a schematic variable that is matched EARLIER (it also occurs
+            # in a first conjunct), possibly omitting an enclosing bound variable:  Q ?a & (!u. [!v.] ?F <args> = rhs)
+            A1 = draw(st.sampled_from(atomsT))
+            A2 = draw(st.sampled_from(atomsT))
+            A3 = draw(st.sampled_from(atomsT))
+            R = draw(st.sampled_from(atomsT))
+            two = draw(st.booleans())
+            bound = (A2, A1) if two else (A1,)
+            pool = [(['b', i], T) for i, T in enumerate(bound)] + [(['v', 'a', A3], A3)] * 2
+            args = draw(st.lists(st.sampled_from(pool), min_size=1, max_size=3))
+            FT = fun(*([T for _, T in args] + [R]))
+            Fapp = ['v', 'F', FT]
+            for a_, _ in args:
+                Fapp = ['app', Fapp, a_]
+            rhs = draw(gen.terms(opts, R, bound, 2))
+            body = ['app', ['app', ['c', 'equals', fun(R, R, BOOL)], Fapp], rhs]
+            if draw(st.booleans()):
+                body = ['app', ['app', ['c', 'equals', fun(R, R, BOOL)], rhs], Fapp]
+            inner = ['abs', 'v', A2, body] if two else None
+            q = ['app', ['c', 'all', fun(fun(A1, BOOL), BOOL)],
+                 ['abs', 'u', A1, ['app', ['c', 'all', fun(fun(A2, BOOL), BOOL)], inner] if two else body]]
+            first = ['app', ['v', 'Q', fun(A3, BOOL)], ['v', 'a', A3]]
+            p0 = ['app', ['app', ['c', 'conj', fun(BOOL, BOOL, BOOL)], first], q]
         elif klass == 'heuristic':
             A1 = draw(st.sampled_from(atomsT))
             R = draw(st.sampled_from(atomsT))
             arg = draw(gen.terms(opts, A1, (), 2))
             inner = ['app', ['v', 'F', fun(A1, R)], arg]
+            if draw(st.integers(0, 2)) == 0:
+                # a head with two arguments (polymorphic when the type variable is made schematic below)
+                A0 = draw(st.sampled_from(atomsT))
+                arg0 = draw(st.one_of(gen.terms(opts, A0, (), 1), st.just(['v', 'x0', A0])))
+                inner = ['app', ['app', ['v', 'F', fun(A0, A1, R)], arg0], arg]
+                if draw(st.booleans()):
+                    tysig = {('tv', 'a'): gen.SA}
             rhs = draw(gen.terms(opts, R, (), 1))
             p0 = ['app', ['app', ['c', 'equals', fun(R, R, BOOL)], inner], rhs]
         else:
@@ -297,7 +350,9 @@ def case_strategy():
         cand = [a for a in atoms if len(by_name[a[0]]) == 1]
         if klass in ('fo', 'repeated', 'poly', 'seeded', 'seeded-conflict', 'unrelated'):
             cand = [a for a in cand if a not in heads]
-        if klass in ('miller', 'eta', 'heuristic'):
+        if klass == 'miller-mixed':
+            chosen = {a for a in cand if a[0] in ('F', 'a')}
+        elif klass in ('miller', 'eta', 'heuristic'):
             chosen = {a for a in cand if a[0] == 'F'} | set(draw(st.lists(st.sampled_from(cand), max_size=2)) if cand else [])
         else:
             chosen = set(draw(st.lists(st.sampled_from(cand), min_size=1, max_size=3))) if cand else set()
@@ -343,7 +398,7 @@ def case_strategy():
                 klass = 'unrelated-type'
             target = draw(gen.terms(opts, Tt, (), draw(st.integers(1, 3))))
             expect = False
-        mode = draw(st.sampled_from(['exact', 'exact', 'exact', 'mut']))
+        mode = draw(st.sampled_from(['exact', 'mut'] if klass == 'miller-mixed' else ['exact', 'exact', 'exact', 'mut']))
         if mode == 'mut' and klass not in ('unrelated', 'unrelated-type'):
             target, how = _mutate(draw, st, target, opts)
             expect = False
